@@ -1,2 +1,3 @@
-namespace go c08.base
+namespace go c08.meta
+// the Go package of the base service is named like a library the generator reserves (meta), so its import is aliased in the derived package
 service Base { i32 ping(1: i32 n) }
